@@ -340,6 +340,28 @@ Definition create (s : st) (v : prim) : st * (N * N) :=
   let id := lenN (refs s) in
   (mkSt (refs s ++ [XPromised]) (cinsert (changes s) id (v, 0)) (backend s) (start s) [] (cached s), (id, 0)).
 
+(** file.rs: Updater::create for any T: the number is reserved (refs.push(Promised)) and the object cache cleared BEFORE
+    obj.to_primitive(self) runs; [conv] is that conversion, a program over the same storage (it may create further objects). *)
+Definition create_with (s : st) (conv : st -> res (st * prim)) : res (st * (N * N)) :=
+  let id := lenN (refs s) in
+  let s1 := mkSt (refs s ++ [XPromised]) (changes s) (backend s) (start s) [] (cached s) in
+  do r <- conv s1;
+  let '(s2, p) := r in
+  Ok (mkSt (refs s2) (cinsert (changes s2) id (p, 0)) (backend s2) (start s2) (cache s2) (cached s2), (id, 0)).
+
+Definition k_Child : bytes := [67; 104; 105; 108; 100].
+
+(** harness storage.rs: Nested::to_primitive = { let c = update.create(child)?; << /Child c >> } (the shape of PageRc::create with
+    direct contents / resources: the parent's conversion creates the child) *)
+Definition nested_conv (child : prim) (s : st) : res (st * prim) :=
+  let '(s2, c) := create s child in Ok (s2, PDict [(k_Child, PRef (fst c) (snd c))]).
+
+(** create(Nested { child }): returns the parent's and the child's reference *)
+Definition create_nested (s : st) (child : prim) : res (st * ((N * N) * (N * N))) :=
+  do r <- create_with s (nested_conv child);
+  let '(s', p) := r in
+  Ok (s', (p, (lenN (refs s) + 1, 0))).
+
 (** file.rs: Updater::promise *)
 Definition promise (s : st) : st * (N * N) :=
   let id := lenN (refs s) in
